@@ -1147,6 +1147,8 @@ class Interp:
             src = src.store
         if isinstance(src, SymDict):
             src = src.do_keys(self)
+        if isinstance(src, ModelObj) and getattr(src, "set_like", False):
+            return self.setdict_comp(e, g, src)
         if not (isinstance(src, SymList) and getattr(src, "src_dict", None) is not None):
             return NotImplemented
         D = src.src_dict
@@ -1185,6 +1187,39 @@ class Interp:
             return SymDict(dom, D.val, D.ksort, D.vsort, D.wrap)
         if ve.sort() == Val or True:
             return SymDict(dom, z3.Lambda([kv], ve), D.ksort, ve.sort())
+
+    def setdict_comp(self, e, g, src):
+        """{key(x): val(x) for x in S} over a set-like model S (membership array `mem`, element sort `esort`); the
+        body must be pure and must not raise.  key(x) = x gives a dict on S itself, any other key an ImageDict."""
+        from .values import ImageDict
+        if g.ifs:
+            raise Unsupported("filtered dict comprehension over a set-like value")
+        xv = z3.Const("x!comp", src.esort)
+        fr = self._comp_frame()
+
+        def ev(expr, at):
+            self.frames.append(fr)
+            self.pure += 1
+            n0 = len(self.pure_guards)
+            try:
+                self.assign(g.target, Sym(at))
+                out = self.eval(expr)
+            finally:
+                self.pure -= 1
+                self.frames.pop()
+            if len(self.pure_guards) > n0:
+                del self.pure_guards[n0:]
+                raise Unsupported("comprehension body that may raise")
+            return out
+        key = ev(e.key, xv)
+        if not isinstance(key, Sym):
+            raise Unsupported("dict comprehension key")
+        val0 = ev(e.value, xv)
+        if key.e.eq(xv):
+            ve = to_z3(val0)
+            return SymDict(src.mem, z3.Lambda([xv], ve), src.esort, ve.sort())
+        gk = lambda t: z3.substitute(key.e, (xv, t))
+        return ImageDict(self.ctx, src.mem, src.esort, gk, lambda t: ev(e.value, t), key.e.sort())
 
     def e_DictComp(self, e):
         r = self.symdict_comp(e)
